@@ -46,7 +46,7 @@ def generate(rng, tier, index):
     ops.append({"op": "predict", "seed": rng.randrange(1 << 30), "t": 2, "fpv": rng.random() < 0.5, "grad": False})
     ops.append({"op": "crash", "how": hows[index % 3], "init_seed": rng.randrange(1 << 30), "proto": rng.choice([2, 4, 5])})
     while len(ops) < n_ops:
-        c = core.weighted_choice(rng, [("predict", 4.0), ("train_steps", 2.0), ("set_train_data", 1.0), ("crash", 1.5), ("objective", 1.0), ("mode", 0.7)])
+        c = core.weighted_choice(rng, [("predict", 4.0), ("train_steps", 2.0), ("set_train_data", 1.0), ("crash", 1.5), ("objective", 1.0), ("mode", 0.7), ("partial_load", 1.2)])
         if c == "predict":
             ops.append({"op": c, "seed": rng.randrange(1 << 30), "t": rng.randint(1, 3), "fpv": rng.random() < 0.4, "grad": rng.random() < 0.2})
         elif c == "train_steps":
@@ -57,6 +57,11 @@ def generate(rng, tier, index):
             ops.append({"op": c, "how": rng.choice(hows), "init_seed": rng.randrange(1 << 30), "proto": rng.choice([2, 4, 5])})
         elif c == "objective":
             ops.append({"op": c, "seed": rng.randrange(1 << 30)})
+        elif c == "partial_load":
+            # a checkpoint of PART of the list (one sub-model, or all likelihoods through the list's `likelihood.likelihoods.i`
+            # names - the same objects as `models.i.likelihood`), loaded with strict=False; a prediction follows
+            ops.append({"op": c, "part": rng.choice(["likelihoods", "likelihoods", "model", "model_kernel"]), "which": rng.randrange(k), "seed": rng.randrange(1 << 30)})
+            ops.append({"op": "predict", "seed": rng.randrange(1 << 30), "t": 2, "fpv": rng.random() < 0.3, "grad": False})
         else:
             ops.append({"op": "mode", "train": rng.random() < 0.5})
     ops.append({"op": "predict", "seed": rng.randrange(1 << 30), "t": 2, "fpv": False, "grad": False})
@@ -132,7 +137,42 @@ def apply(ml, recipes, op, out):
         ml.train(op["train"])
         ml.likelihood.train(op["train"])
         return "ok", {}
+    if k == "partial_load":
+        donor = build_list(recipes, [_data_of(m) for m in ml.models], variant=0, seed_shift=op["seed"] % 9967 + 3)
+        sd = donor.state_dict()
+        j = op["which"] % len(recipes)
+        prefix = {"likelihoods": "likelihood.likelihoods.", "model": "models.%d." % j, "model_kernel": "models.%d.covar_module." % j}[op["part"]]
+        part = {kk: v.detach().clone() for kk, v in sd.items() if kk.startswith(prefix)}
+        try:
+            ml.load_state_dict(part, strict=False)
+        except Exception as e:  # noqa
+            return "rejected", {"exc": type(e).__name__}
+        out.stats["probe:partial_state_dict_loaded[%s]" % op["part"]] += 1
+        return "ok", {}
     raise core.HarnessError(k)
+
+
+def _data_of(m):
+    st = zoo.exact_state(m)
+    return {"inputs": st["inputs"], "targets": st["targets"], "fixed_noise": st["fixed_noise"]}
+
+
+def fresh_vs_live(out, i, ml, recipes, op, who):
+    """After a load, no cache of the previous state is in effect: the next prediction equals that of a freshly built list
+    holding the same state_dict and data."""
+    F = build_list(recipes, [_data_of(m) for m in ml.models], variant=1, seed_shift=op["seed"] % 9949 + 5)
+    F.load_state_dict(ml.state_dict())
+    scratch = core.Outcome()
+    sa, oa = apply(ml, recipes, op, scratch)
+    sb, ob = apply(F, recipes, op, scratch)
+    out.stats["oracle_comparisons"] += 1
+    out.stats["probe:prediction_after_partial_load_vs_fresh"] += 1
+    if sa == "ok" and sb == "ok":
+        ta = {q: v for q, v in oa.items() if torch.is_tensor(v)}
+        tb = {q: v for q, v in ob.items() if torch.is_tensor(v)}
+        bad, mx = compare.compare_obs(ta, tb, TOL)
+        if bad:
+            out.violate("stale_after_load", i, "after a partial load_state_dict(strict=False), %s of the %s list differs from a freshly built list with the same state by %.3g" % (bad[0][0], who, bad[0][1]), family="modellist", how="partial_state_dict", quantity=bad[0][0].split("_")[0])
 
 
 def execute(history):
@@ -198,6 +238,10 @@ def execute(history):
                 if d:
                     out.violate("state_differs_after_restore", i, "right after the %s restore: %s" % (how, d[1]), family="modellist", how=how, key=d[0].rsplit(".", 1)[-1], phase="n/a")
             else:
+                if k == "predict" and i > 0 and history["ops"][i - 1]["op"] == "partial_load":
+                    fresh_vs_live(out, i, A, recipes, op, "reference")
+                    if B is not None:
+                        fresh_vs_live(out, i, B, recipes, op, "restored")
                 sa, oa = apply(A, recipes, op, out)
                 for q in sorted(oa):
                     if torch.is_tensor(oa[q]):
